@@ -104,7 +104,16 @@ def run(ctx):
             r1.ok("curling", "first candidate is taken after the quoter, which runs under exactly get_smart_quote()")
         else:
             r1.violation("curling", "the composed text's curling depends on %s" % ([(repr(d)[:60], p_) for d, p_, s_ in extra] or "no option test"), site_of(b, qc[0][0]))
-    r1.floor(5, "first, first-order, base, trad-flag, curling")
+    # the searched word is the typed word minus *punctuation*: nothing of the Bengali block may be split off it
+    sp_ = c17.split_fn(prog)
+    special = {c for lit, w in common.splitter_sets(prog, sp_) for c in lit} | {c for c, w in common.splitter_char_tests(prog, sp_)}
+    beng = sorted(c for c in special if 0x0980 <= ord(c) <= 0x09FF)
+    if beng:
+        r1.violation("word-part", "the splitter treats %s as punctuation: a typed word ending in it is searched without it and the sign is glued back onto every hit — "
+                     "candidates that are neither dictionary words nor completions of the typed word" % " ".join("U+%04X" % ord(c) for c in beng), common.fn_line(prog, sp_))
+    else:
+        r1.ok("word-part", "no letter or sign of the Bengali block is split off the typed word (%d special characters)" % len(special))
+    r1.floor(6, "first, first-order, base, trad-flag, curling, word-part")
 
     # ---------------- R2 at most nine
     r2 = chk.rule("C15.R2", "at most nine candidates at the list constructor on every path",
@@ -351,7 +360,22 @@ def run(ctx):
                 r6.assume("distance × 10 < 256 for every candidate (completions add at most 5 letters; traditional joining adds at most 5 non-joiners)")
             else:
                 r6.violation("distance-step", "the distance rank is %r: a larger step wraps the u8 rank and breaks non-decreasing distance order" % (info["rank"],), common.fn_line(prog, k))
-    r6.floor(2, "rebuild + distance step")
+    # a dictionary candidate is shown as the string its distance was computed from
+    if search:
+        touched = None
+        for k5 in [search] + sorted(prog.closures_of(search)) + sorted(c for g in (prog.body(search).fn.get("inlined") or []) for c in [g] + prog.closures_of(g)):
+            if k5 not in prog.fns:
+                continue
+            b5 = prog.body(k5)
+            for (i5, j5, st5) in b5.stmts():
+                if st5["k"] == "assign" and st5["rv"]["k"] == "ref" and st5["rv"].get("mut") and b5.locals[st5["rv"]["place"]["l"]]["ty"] == builders.RANK:
+                    touched = touched or (b5, i5)
+        if touched is None:
+            r6.ok("ranked-as-shown", "the search never takes a mutable reference to a ranked candidate: what is shown is what was measured")
+        else:
+            r6.violation("ranked-as-shown", "the search modifies a candidate after its distance rank was computed: the list is ordered by the distance of a string "
+                         "other than the one shown (non-decreasing edit distance from the typed word is lost)", site_of(touched[0], touched[1]))
+    r6.floor(3, "rebuild + distance step + ranked-as-shown")
 
 
 def _always_builds(prog, fn, builder):
